@@ -1783,3 +1783,16 @@ where
         }
     }
 }
+
+#[cfg(feature = "h2_verif")]
+impl<T, B> Connection<T, B>
+where
+    T: AsyncRead + AsyncWrite + Unpin,
+    B: Buf,
+{
+    /// Read-only statistics snapshot of the connection's stream state, as a
+    /// JSON document (verification harness only).
+    pub fn verif_snapshot(&self) -> String {
+        self.connection.verif_snapshot()
+    }
+}
